@@ -39,3 +39,63 @@ where
 {
     IntOrString::deserialize(deserializer).map(String::from)
 }
+
+/// Types an ID-typed field can have: `String`, and any `Option` / `Vec` nesting of it
+/// (`[ID!]!` is `Vec<String>`, `[[ID]]` is `Option<Vec<Option<Vec<Option<String>>>>>`).
+pub trait NestedId<'de>: Sized {
+    /// Deserialize `Self`, accepting either a String or an Integer at every ID leaf.
+    fn deserialize_nested_id<D>(deserializer: D) -> Result<Self, D::Error>
+    where
+        D: Deserializer<'de>;
+}
+
+struct NestedIdWrapper<T>(T);
+
+impl<'de, T: NestedId<'de>> Deserialize<'de> for NestedIdWrapper<T> {
+    fn deserialize<D>(deserializer: D) -> Result<Self, D::Error>
+    where
+        D: Deserializer<'de>,
+    {
+        T::deserialize_nested_id(deserializer).map(NestedIdWrapper)
+    }
+}
+
+impl<'de> NestedId<'de> for String {
+    fn deserialize_nested_id<D>(deserializer: D) -> Result<Self, D::Error>
+    where
+        D: Deserializer<'de>,
+    {
+        deserialize_id(deserializer)
+    }
+}
+
+impl<'de, T: NestedId<'de>> NestedId<'de> for Option<T> {
+    fn deserialize_nested_id<D>(deserializer: D) -> Result<Self, D::Error>
+    where
+        D: Deserializer<'de>,
+    {
+        Option::<NestedIdWrapper<T>>::deserialize(deserializer).map(|opt| opt.map(|id| id.0))
+    }
+}
+
+impl<'de, T: NestedId<'de>> NestedId<'de> for Vec<T> {
+    fn deserialize_nested_id<D>(deserializer: D) -> Result<Self, D::Error>
+    where
+        D: Deserializer<'de>,
+    {
+        Vec::<NestedIdWrapper<T>>::deserialize(deserializer)
+            .map(|ids| ids.into_iter().map(|id| id.0).collect())
+    }
+}
+
+/// Deserialize a list of IDs (any `Option` / `Vec` nesting of the ID type) where every ID can
+/// have either a String or an Integer representation.
+///
+/// This is used by the codegen for ID-typed fields with a list type, e.g. `[ID!]!`.
+pub fn deserialize_nested_id<'de, D, T>(deserializer: D) -> Result<T, D::Error>
+where
+    D: Deserializer<'de>,
+    T: NestedId<'de>,
+{
+    T::deserialize_nested_id(deserializer)
+}
